@@ -5,9 +5,12 @@ import (
 	"go/constant"
 	"go/token"
 	"go/types"
+	"math"
 	"os"
 	"sort"
 	"strings"
+
+	"golang.org/x/tools/go/ssa"
 
 	"mltlint/internal/absint"
 	. "mltlint/internal/core"
@@ -361,6 +364,9 @@ func checkC01(c *Ctx) {
 	c.Rule("C01.F11", "W-twin agreement (sibling cross-check): every RV64 entry that the ISA defines as the 32-bit form of an RV32 instruction (mnemonic + 'w', or an atomic '.w') computes, on the path where no register is x0, the same term as its RV32 twin - same operators, operand roles, operation widths and constants - apart from the final sign extension to 64 bits, the 64-bit register-file width and the width of address registers")
 	c.Rule("C01.sem", "reference semantics: for every table entry the lifted effect terms (path without x0 operands), in a canonical form invariant under truncation-transparent widths, operand order of commutative operators, the comparison-helper family and transparent sign/width adapters, equal the canonical form of the instruction's definition in the unprivileged ISA manual (operator, operand roles, comparison polarity, branch targets, access widths, sign extension of loads and word forms, jalr bit 0, mulh/mulhsu/mulhu products, AMO min/max selection)")
 	c.Rule("C01.glue", "Parser.Parse lifts with validEffects(newInstruction(a, bs, matched)) of the matched entry; validEffects calls the entry's effects closure on that instruction and only drops nil effects")
+
+	c.Rule("C01.pcrel", "the helper that adds a signed 32-bit immediate to an address (PC-relative targets, auipc), walked with the wrap-around of its Go integer types for immediates 0, 1, -1, 2047, -2048, MaxInt32 and MinInt32 at a low and a high address, returns address + sign-extended immediate modulo 2^64")
+	checkPCRelative(c)
 
 	ri := loadRiscv(c)
 	if ri == nil {
@@ -996,4 +1002,59 @@ func checkWTwins(c *Ctx, ri *rvInfo) {
 		c.Oblige("C01.F11", key, pos, bad == "", bad+" (the ISA defines "+e.Name+" as the 32-bit operation "+twin.Name+" with a sign-extended result)")
 	}
 	c.RequireCount("C01.F11 W twins", n, 25)
+}
+
+// checkPCRelative decides C01.pcrel. The helper is found by role: a function
+// of package riscv with an address parameter and a signed 32-bit parameter
+// that returns an address.
+func checkPCRelative(c *Ctx) {
+	addrT := c.Prog.LookupType(ModulePath+"/pkg/model", "Addr")
+	if addrT == nil {
+		c.Undecide("C01.pcrel: type model.Addr not found")
+		return
+	}
+	n := 0
+	for _, fn := range c.Prog.Funcs() {
+		if fn.Blocks == nil || PkgPathOf(fn) != ModulePath+"/internal/riscv" || len(fn.Params) != 2 || fn.Signature.Results().Len() != 1 || fn.Parent() != nil {
+			continue
+		}
+		ai, ii := -1, -1
+		for i, p := range fn.Params {
+			if types.Identical(p.Type(), addrT) {
+				ai = i
+			} else if b, ok := p.Type().Underlying().(*types.Basic); ok && b.Kind() == types.Int32 {
+				ii = i
+			}
+		}
+		if ai < 0 || ii < 0 || !types.Identical(fn.Signature.Results().At(0).Type(), addrT) {
+			continue
+		}
+		n++
+		for _, a := range []int64{0x10000, 0x7fffffff_fffff000} {
+			for _, imm := range []int64{0, 1, -1, 2047, -2048, math.MaxInt32, math.MinInt32} {
+				a, imm := a, imm
+				vl := &Valuation{Typed: true, Enter: SamePackage(fn), Int: func(v ssa.Value) (int64, bool) {
+					switch v {
+					case ssa.Value(fn.Params[ai]):
+						return a, true
+					case ssa.Value(fn.Params[ii]):
+						return imm, true
+					}
+					return 0, false
+				}}
+				res := vl.Walk(fn.Blocks[0], nil)
+				key := fmt.Sprintf("%s/addr=%#x,imm=%d", ShortName(fn), a, imm)
+				got, known := res.RetInt[0]
+				_, isRet := res.End.(*ssa.Return)
+				switch {
+				case !res.OK || !isRet || !known:
+					c.Fail("C01.pcrel", key, c.Prog.FuncPos(fn), "the result cannot be evaluated: "+res.Why)
+				default:
+					want := a + imm // two's complement: the same bits as the unsigned sum modulo 2^64
+					c.Oblige("C01.pcrel", key, c.Prog.FuncPos(fn), got == want, fmt.Sprintf("returns %#x, expected address + sign-extended immediate = %#x", uint64(got), uint64(want)))
+				}
+			}
+		}
+	}
+	c.RequireCount("C01.pcrel address+immediate helpers in package riscv", n, 1)
 }
